@@ -5,7 +5,7 @@ C01_CLASSES = {"wrong-count", "empty-cycle", "foreign-edge", "repeated-edge", "n
 C02_CLASSES = {"return-mismatch", "not-minimum", "weight-vector", "unweighable-output"}
 
 RULE = ("every labelled simple graph on exactly n vertices (all 2^(n(n-1)/2) edge subsets, edges inserted in "
-        "lexicographic order) x every function E->alphabet (U={1}, A2={1,2}, A3={1,2,3}, D={.25,.5,.75}) x each of "
+        "lexicographic order; additionally with every edge / every second edge handed to add_edge in reversed orientation) x every function E->alphabet (U={1}, A2={1,2}, A3={1,2,3}, D={.25,.5,.75}) x each of "
         "mcb_sva_signed / mcb_sva_fvs_trees / mcb_sva_iso_trees, plus named families with all weightings; oracle = "
         "all simple cycles + GF(2) greedy reference (Horton-collection reference above cycle space dimension 15); a fixed menu of pseudo-random sparse graphs (deterministic generator, enumerated completely). evaluations = algorithm runs; distinct_nontrivial = distinct "
         "(graph, weighting, weight type) inputs whose cycle space dimension is >= 1 (enumeration never repeats an input)")
@@ -23,12 +23,14 @@ def runs(tier):
         ("G(0..4) x A2, int", [["--n", n, "--alpha", "A2", "--wtype", "int"] for n in range(0, 5)]),
         ("G(0..4) x D, double", [["--n", n, "--alpha", "D"] for n in range(0, 5)]),
         ("G(5) x A3, double", [["--n", 5, "--alpha", "A3"]]),
+        ("edge orientation (source/target as handed to add_edge) reversed / alternating: G(0..4) x A3, G(5) x A2", [["--n", n, "--alpha", "A3", "--orient", o] for n in range(2, 5) for o in (1, 2)] + [["--n", 5, "--alpha", "A2", "--orient", o] for o in (1, 2)]),
         ("G(6) x U, double", [["--n", 6, "--alpha", "U"]]),
         ("blob grammar K=3,T=2 x patterns U, M2, M3", [["--grammar", "blobs:3:2", "--alpha", a] for a in ("U", "M2", "M3")]),
         ("dense families x U", [["--families", "K:6,K:7,wheel:6,prism:4,petersen,Kb:3:4,grid:3:4,cube:3", "--alpha", "U"]]),
         ("G(6) x A2, graphs with >= 12 edges, mcb_sva_signed (support vectors with several entries: hidden-edge heuristic)", [["--n", 6, "--alpha", "A2", "--min-m", 12, "--variants", "signed"]]),
         ("fixed menu: 2400 pseudo-random sparse graphs n=8..24 x 4 pseudo-random weightings in 1..9 (Horton reference above dimension 15)",
-         [["--families", lcg_menu((8, 10, 12, 14, 16, 18, 20, 24), (1.3, 1.6, 2.0), 100), "--alpha", "R9x4"]]),
+         [["--families", lcg_menu((8, 10, 12, 14, 16, 18, 20, 24), (1.3, 1.6, 2.0), 100), "--alpha", "R9x4"],
+          ["--families", lcg_menu((8, 10, 12, 14, 16, 18, 20, 24), (1.3, 1.6, 2.0), 100), "--alpha", "R9x2", "--orient", 2]]),
     ]
     if tier == "quick":
         return q
@@ -39,6 +41,7 @@ def runs(tier):
         ("families x A2", [["--families", "wheel:5,wheel:6,prism:3,prism:4,Kb:3:3,cube:3,grid:3:3,petersen,Kb:2:5,grid:2:5", "--alpha", "A2"]]),
         ("fixed menu: 8000 pseudo-random graphs n=7..30 x 6 weightings in 1..9 and x 3 weightings in 1..3",
          [["--families", lcg_menu((7, 9, 11, 13, 15, 17, 19, 22, 26, 30), (1.2, 1.5, 1.8, 2.2), 200), "--alpha", a] for a in ("R9x6", "R3x3")]),
+        ("G(5) x A3 reversed orientation, G(6) x U both non-default orientations", [["--n", 5, "--alpha", "A3", "--orient", 1], ["--n", 6, "--alpha", "U", "--orient", 1], ["--n", 6, "--alpha", "U", "--orient", 2]]),
         ("G(6) x A2, double", [["--n", 6, "--alpha", "A2"]]),
         ("G(7) x U, double", [["--n", 7, "--alpha", "U"]]),
     ]
